@@ -973,3 +973,220 @@ func ttlUnitsNeedNumbers(c *Ctx, r *Report, rule string) {
 	}
 	r.check(okEmpty && n > 0, rule, "stringToTTL:empty-token", c.pos(fn.Pos()), "len(token) != 0", "the success return is reachable for the empty token: an empty TTL token is accepted as 0")
 }
+
+// escapeToggle: a scanner that tracks "the previous character was an unescaped backslash" in a loop-carried flag
+// must toggle it on a backslash: after `\\` the next character is not escaped. The value the flag has when the loop
+// comes round from the backslash arm is evaluated for both values of the flag on entry: it must be the negation.
+func escapeToggle(c *Ctx, r *Report, rule, fname, consequence string) {
+	fn := c.ssaFunc(fname)
+	if fn == nil {
+		r.cerr(rule, fname, "function not found")
+		return
+	}
+	r.fn(fname)
+	n := 0
+	allInstrs(fn, func(in ssa.Instruction) {
+		phi, ok := in.(*ssa.Phi)
+		if !ok {
+			return
+		}
+		if bt, ok := phi.Type().Underlying().(*types.Basic); !ok || bt.Kind() != types.Bool {
+			return
+		}
+		hdr := phi.Block()
+		isLoop := false
+		for _, p := range hdr.Preds {
+			if hdr.Dominates(p) {
+				isLoop = true
+			}
+		}
+		if !isLoop {
+			return
+		}
+		// the arm taken on a backslash: a block dominated by `c == '\\'`
+		var arm *ssa.BasicBlock
+		for _, b := range fn.Blocks {
+			if !hdr.Dominates(b) || b == hdr {
+				continue
+			}
+			for _, f := range factsAt(fn, b) {
+				bin, ok := f.Atom.(*ssa.BinOp)
+				if !ok || bin.Op != token.EQL || !f.Holds {
+					continue
+				}
+				if k, isK := constIntOf(bin.Y); isK && k == '\\' && f.If != nil && f.If.Block().Succs[0] == b {
+					arm = b
+				}
+			}
+		}
+		if arm == nil {
+			return
+		}
+		n++
+		// evaluate the flag's next value along the path arm -> ... -> header for old in {false, true}
+		var eval func(v ssa.Value, old bool, from *ssa.BasicBlock, d int) (bool, bool)
+		eval = func(v ssa.Value, old bool, from *ssa.BasicBlock, d int) (bool, bool) {
+			if d > 6 {
+				return false, false
+			}
+			if v == ssa.Value(phi) {
+				return old, true
+			}
+			switch t := v.(type) {
+			case *ssa.Const:
+				return constBool(t)
+			case *ssa.UnOp:
+				if t.Op == token.NOT {
+					x, ok := eval(t.X, old, from, d+1)
+					return !x, ok
+				}
+			case *ssa.Phi:
+				// a merge between the arm and the header: take the edge that comes from the arm (or from a block the arm
+				// dominates)
+				for i, p := range t.Block().Preds {
+					if p == arm || arm.Dominates(p) {
+						return eval(t.Edges[i], old, p, d+1)
+					}
+				}
+			}
+			return false, false
+		}
+		good := true
+		var got []string
+		for i, p := range hdr.Preds {
+			if !hdr.Dominates(p) {
+				continue
+			}
+			e := phi.Edges[i]
+			for _, old := range []bool{false, true} {
+				v, ok := eval(e, old, p, 0)
+				if !ok {
+					good = false
+					got = append(got, fmt.Sprintf("%v -> ?", old))
+					continue
+				}
+				got = append(got, fmt.Sprintf("%v -> %v", old, v))
+				if v != !old {
+					good = false
+				}
+			}
+		}
+		name := phi.Comment
+		if name == "" {
+			name = phi.Name()
+		}
+		r.check(good, rule, fmt.Sprintf("%s:%s", fname, name), c.pos(arm.Instrs[0].Pos()), "toggled on a backslash", "on a backslash the escape flag goes %s instead of being toggled: after an escaped backslash the next character is still taken as escaped, so %s", strings.Join(got, ", "), consequence)
+	})
+	if n == 0 {
+		r.undecided(rule, fname, c.pos(fn.Pos()), "no loop-carried escape flag with a backslash arm found")
+	}
+}
+
+// backslashScanReachesZero: a backward scan over the backslashes in front of a dot decides whether the dot is
+// escaped; it has to be able to reach index 0 (a name that starts with backslashes).
+func backslashScanReachesZero(c *Ctx, r *Report, rule string, fnames []string, consequence string) {
+	for _, fname := range fnames {
+		fn := c.ssaFunc(fname)
+		if fn == nil {
+			r.cerr(rule, fname, "function not found")
+			continue
+		}
+		r.fn(fname)
+		n := 0
+		allInstrs(fn, func(in ssa.Instruction) {
+			phi, ok := in.(*ssa.Phi)
+			if !ok {
+				return
+			}
+			// a counter that steps down by one
+			down := false
+			for _, e := range phi.Edges {
+				if b, ok := e.(*ssa.BinOp); ok && b.X == ssa.Value(phi) {
+					if k, isK := constIntOf(b.Y); isK && ((b.Op == token.SUB && k == 1) || (b.Op == token.ADD && k == -1)) {
+						down = true
+					}
+				}
+			}
+			if !down {
+				return
+			}
+			blk := phi.Block()
+			iff, ok := blk.Instrs[len(blk.Instrs)-1].(*ssa.If)
+			if !ok {
+				return
+			}
+			// the body tests a character against the backslash
+			isBackslashLoop := false
+			for _, b := range fn.Blocks {
+				if !blk.Dominates(b) {
+					continue
+				}
+				for _, x := range b.Instrs {
+					if bin, ok := x.(*ssa.BinOp); ok && (bin.Op == token.EQL || bin.Op == token.NEQ) {
+						if k, isK := constIntOf(bin.Y); isK && k == '\\' && anyIn(sliceOf(bin.X), isValue(phi)) {
+							isBackslashLoop = true
+						}
+					}
+				}
+			}
+			if !isBackslashLoop {
+				return
+			}
+			lo, _, hasLo, _ := intervalFromFact(Fact{If: iff, Atom: iff.Cond, Holds: true}, isValue(phi))
+			if !hasLo {
+				return
+			}
+			n++
+			r.check(lo == 0, rule, fmt.Sprintf("%s:backslash-scan#%d", fname, n), c.pos(iff.Pos()), "reaches index 0", "the backward scan over backslashes stops at index %d: a backslash at the very start of the name is not counted, the escape parity of the first dot flips, and %s", lo, consequence)
+		})
+		if n == 0 {
+			r.undecided(rule, fname, c.pos(fn.Pos()), "no backward scan over backslashes found")
+		}
+	}
+}
+
+// fqdnTrailingRun: whether the final dot is escaped depends on the run of backslashes directly in front of it; the
+// parity that is tested is of a position found by scanning back from the end, not of a count over the whole name.
+func fqdnTrailingRun(c *Ctx, r *Report, rule string) {
+	r.rule(rule, 1, "IsFqdn tests the parity of the backslash run directly before the final dot (found by scanning back from the end)")
+	fn := c.ssaFunc("IsFqdn")
+	if fn == nil {
+		r.cerr(rule, "IsFqdn", "function not found")
+		return
+	}
+	r.fn("IsFqdn")
+	n := 0
+	allInstrs(fn, func(in ssa.Instruction) {
+		rem, ok := in.(*ssa.BinOp)
+		if !ok || rem.Op != token.REM {
+			return
+		}
+		if k, isK := constIntOf(rem.Y); !isK || k != 2 {
+			return
+		}
+		n++
+		fromEnd, whole := false, false
+		for o := range sliceOf(rem.X) {
+			if call, ok := o.(*ssa.Call); ok {
+				switch calleeNameSSA(&call.Call) {
+				case "strings.LastIndexFunc", "strings.LastIndexByte", "strings.LastIndex", "strings.LastIndexAny", "strings.TrimRight", "strings.TrimRightFunc":
+					fromEnd = true
+				case "strings.Count", "bytes.Count":
+					whole = true
+				}
+			}
+			if phi, ok := o.(*ssa.Phi); ok {
+				// a hand-written backward loop
+				for _, e := range phi.Edges {
+					if b, ok := e.(*ssa.BinOp); ok && b.X == ssa.Value(phi) && b.Op == token.SUB {
+						fromEnd = true
+					}
+				}
+			}
+		}
+		r.check(fromEnd && !whole, rule, fmt.Sprintf("IsFqdn:parity#%d", n), c.pos(rem.Pos()), "run before the final dot", "the parity tested is not that of the backslash run directly before the final dot (scan from the end: %v, count over the whole name: %v): a backslash elsewhere in the name flips the verdict, `a\\\\.b\\\\.` is taken for fully qualified and packed without its last label", fromEnd, whole)
+	})
+	if n == 0 {
+		r.undecided(rule, "IsFqdn", c.pos(fn.Pos()), "no parity test found")
+	}
+}
